@@ -36,6 +36,25 @@ def long_traces(ctx, n, nops):
     return cases
 
 
+def capacity_boundaries():
+    """The node exactly full (371 records), one more (refused), a slot freed and taken again; exactly half full (185/186: where deferred
+    deletion starts to defer) - written out and loaded back at each of these points, in every deletion mode."""
+    cases = []
+    for mode in ("immediate", "rebal", "lazy", "incremental"):
+        for full in (370, 371):
+            ops = [{"op": "ins", "n": "k%d" % i} for i in range(full)]
+            ops += [{"op": "write", "n": ""}, {"op": "load", "n": ""}, {"op": "ins", "n": "x1"}, {"op": "ins", "n": "x2"}, {"op": "write", "n": ""}, {"op": "load", "n": ""},
+                    {"op": "del", "n": "k5"}, {"op": "ins", "n": "x3"}, {"op": "ins", "n": "x4"}, {"op": "upd", "n": "k10"}, {"op": "write", "n": ""}, {"op": "load", "n": ""},
+                    {"op": "del", "n": "x3"}, {"op": "del", "n": "k0"}, {"op": "rebalance", "n": ""}, {"op": "write", "n": ""}, {"op": "load", "n": ""}]
+            cases.append({"cfg": {"mode": mode, "cap": 0, "style": 4}, "ops": ops})
+        for n in (185, 186, 187):
+            ops = [{"op": "ins", "n": "k%d" % i} for i in range(n)]
+            ops += [{"op": "del", "n": "k3"}, {"op": "write", "n": ""}, {"op": "load", "n": ""}, {"op": "del", "n": "k4"}, {"op": "del", "n": "k5"}, {"op": "write", "n": ""},
+                    {"op": "load", "n": ""}, {"op": "ins", "n": "k3"}, {"op": "upd", "n": "k7"}, {"op": "rebalance", "n": ""}, {"op": "write", "n": ""}, {"op": "load", "n": ""}]
+            cases.append({"cfg": {"mode": mode, "cap": 0, "style": 4}, "ops": ops})
+    return cases
+
+
 def run(ctx):
     thorough = ctx.tier == "thorough"
     mc = ctx.model_check("C14MC.tla", "C14_mc_thorough.cfg" if thorough else "C14_mc.cfg", workers=min(8, ctx.workers), coverage=thorough)
@@ -69,7 +88,7 @@ def run(ctx):
             pre.append({"cfg": dict(c["cfg"]), "ops": [{"op": "ins", "n": "d"}] + c["ops"]})
     cases += pre
     ngen = len(cases)
-    cases += long_traces(ctx, 24 if thorough else 8, 2500 if thorough else 1200)
+    cases += long_traces(ctx, 24 if thorough else 8, 2500 if thorough else 1200) + capacity_boundaries()
     path = ctx.write_cases(cases)
     trace, out = ctx.drive("c14", path)
     H.log(out.strip())
